@@ -1180,3 +1180,6 @@ M('C16', 'corner blocks of earlier axes not extended', 'odl/util/numerics.py',
         else:
             working_slc = list(full_slc)
             working_slc[axis] = intersec_slc[axis]""", 'resize_array[')
+M('C07', 'simplex proximal drops the diameter', 'odl/solvers/functional/default_functionals.py',
+  "                proj_simplex(x, diameter, out)", "                proj_simplex(x, out=out)",
+  'IndicatorSimplex.proximal')
